@@ -166,8 +166,27 @@ class sx_bool(int, metaclass=_Meta):
         return bool(x)
 
 
+def _dispatch(name):
+    def f(x, *a, **k):
+        return getattr(x, name)(*a, **k)
+    f.__name__ = name
+    return staticmethod(f)
+
+
 class sx_str(str, metaclass=_Meta):
     _real = str
+    # `str.isascii(x)`-style calls on the type (e.g. map(str.isascii, label)) must dispatch on symbolic strings
+    isascii = _dispatch("isascii")
+    isdigit = _dispatch("isdigit")
+    isalpha = _dispatch("isalpha")
+    isspace = _dispatch("isspace")
+    isidentifier = _dispatch("isidentifier")
+    upper = _dispatch("upper")
+    lower = _dispatch("lower")
+    strip = _dispatch("strip")
+    startswith = _dispatch("startswith")
+    endswith = _dispatch("endswith")
+    find = _dispatch("find")
 
     def __new__(cls, *args, **kw):
         if args and is_symbolic(args[0]):
